@@ -133,3 +133,111 @@ class OsModel:
 
     def __getattr__(self, k):
         return getattr(_ros, k)
+
+
+# ---- JSON ----------------------------------------------------------------------------------------------------------
+
+class StrOf(str):
+    """the text str(obj) of an object json could not encode natively (default=str): an opaque string that remembers obj"""
+    def __new__(cls, obj, text=None):
+        o = str.__new__(cls, '<str of %s>' % type(obj).__name__ if text is None else text)
+        o.of = obj
+        return o
+
+
+class JsonModel:
+    """json.dump / json.load over VFS handles with the *type rules* of the real encoder (contract, conformance-tested in
+    the harnesses against the real json module): dict keys must be str/int/float/bool/None (non-str keys become their
+    text), list and tuple -> list, str -> str, bool/None unchanged, int -> int, float (numpy.float64 is a float) -> float
+    with NaN/Infinity allowed, everything else (numpy integers and bools, ndarrays, datetimes, arbitrary objects) goes
+    through `default` or raises TypeError. Symbolic scalars: XR/SFP/EFP are floats, SInt/SBV are Python ints; harness
+    wrappers with attribute `json_kind` ('float' | 'int' | 'other') choose their own rule."""
+
+    def __init__(self, vfs):
+        self.vfs = vfs
+
+    @staticmethod
+    def _enc(o, default):
+        import numpy as _np
+        import json as _rj
+        enc = JsonModel._enc
+        kind = getattr(o, 'json_kind', None)
+        if kind == 'other':
+            if default is None:
+                raise TypeError('Object of type %s is not JSON serializable' % type(o).__name__)
+            return enc(default(o), default)
+        if kind in ('float', 'int'):
+            return o.json_value()
+        if o is None or isinstance(o, (bool, str)):
+            return o
+        if isinstance(o, (core.XR, core.SFP, core.EFP, core.SInt, core.SBV)):
+            return o
+        if isinstance(o, float):
+            return float(o)
+        if isinstance(o, int):
+            return int(o)
+        if isinstance(o, (list, tuple)):
+            return [enc(x, default) for x in o]
+        if isinstance(o, dict):
+            out = {}
+            for k, v in o.items():
+                if isinstance(k, str):
+                    kk = k
+                elif isinstance(k, bool) or k is None or isinstance(k, (int, float)):
+                    kk = _rj.dumps(k)
+                else:
+                    raise TypeError('keys must be str, int, float, bool or None, not %s' % type(k).__name__)
+                out[kk] = enc(v, default)
+            return out
+        if default is None:
+            raise TypeError('Object of type %s is not JSON serializable' % type(o).__name__)
+        d = default(o)
+        if d is o:
+            raise ValueError('Circular reference detected')
+        return enc(d, default)
+
+    @staticmethod
+    def _dec(o):
+        if isinstance(o, list):
+            return [JsonModel._dec(x) for x in o]
+        if isinstance(o, dict):
+            return {k: JsonModel._dec(v) for k, v in o.items()}
+        return o
+
+    def dump(self, obj, fp, *, skipkeys=False, ensure_ascii=True, check_circular=True, allow_nan=True, cls=None, indent=None,
+             separators=None, default=None, sort_keys=False, **kw):
+        if not isinstance(fp, _Handle):
+            import json
+            return json.dump(obj, fp, indent=indent, separators=separators, default=default, sort_keys=sort_keys)
+        payload = self._enc(obj, default)
+        fp.vf.kind = 'json'
+        fp.vf.payload = payload
+
+    def load(self, fp, **kw):
+        if not isinstance(fp, _Handle):
+            import json
+            return json.load(fp, **kw)
+        if fp.vf.kind != 'json':
+            import json
+            raise json.JSONDecodeError('Expecting value', '', 0)
+        return self._dec(fp.vf.payload)
+
+    def dumps(self, obj, *, default=None, **kw):
+        return _JsonText(self._enc(obj, default))
+
+    def loads(self, s, **kw):
+        if isinstance(s, _JsonText):
+            return self._dec(s.payload)
+        import json
+        return json.loads(s, **kw)
+
+    def __getattr__(self, k):
+        import json
+        return getattr(json, k)
+
+
+class _JsonText(str):
+    def __new__(cls, payload):
+        o = str.__new__(cls, '<json text>')
+        o.payload = payload
+        return o
